@@ -155,7 +155,19 @@ class NumSource(Source):
         return it
 
 
-SRC_CLASS = {"pages": PageSource, "books": BookSource, "reiter": LazyReiterable, "nums": NumSource}
+class SizedSource(Source):
+    """an async iterable that knows its length (a query result with a row count) but produces its rows on demand"""
+
+    def __len__(self):
+        return self.n
+
+
+class SizedReiterable(LazyReiterable):
+    def __len__(self):
+        return self.n
+
+
+SRC_CLASS = {"sized": SizedSource, "sizedsync": SizedReiterable, "pages": PageSource, "books": BookSource, "reiter": LazyReiterable, "nums": NumSource}
 
 
 def alive(refs):
@@ -191,6 +203,8 @@ TOOLS = {
     # inner iterables that own their rows: the chain may keep the current page only
     "chain_from_iterable_pages": (lambda S: A.chain.from_iterable(S[0]), 1, 4, "pages"),
     "chain_from_iterable_books": (lambda S: A.chain.from_iterable(S[0]), 1, 5, "books"),
+    "zip_sized": (lambda S: A.zip(S[0], S[1]), 2, 0, "sized"), "batched3_sized": (lambda S: A.batched(S[0], 3), 1, 3, "sized"),
+    "islice_sized": (lambda S: A.islice(S[0], 1, None, 2), 1, 0, "sized"), "enumerate_sizedsync": (lambda S: A.enumerate(S[0]), 1, 0, "sizedsync"),
     # lazily producing synchronous re-iterables (not Iterator, not Sequence)
     "filter_reiter": (lambda S: A.filter(lambda x: x.key % 2, S[0]), 1, 0, "reiter"),
     "zip_reiter": (lambda S: A.zip(S[0], S[1]), 2, 0, "reiter"),
@@ -216,6 +230,11 @@ AGGS = {
     "max_nums": (lambda S: A.max(S[0]), 1, None, "nums"),
     "nlargest4_reiter": (lambda S: A.nlargest(S[0], 4), 4, None, "reiter"),
     "min_reiter": (lambda S: A.min(S[0]), 1, None, "reiter"),
+    # inputs with a length that still produce their items lazily: a short-cut taken "when n >= len" must not collect them all
+    "nlargest4_sized": (lambda S: A.nlargest(S[0], 4), 4, None, "sized"), "nsmallest3_sized": (lambda S: A.nsmallest(S[0], 3), 3, None, "sized"),
+    "nlargest4_sizedsync": (lambda S: A.nlargest(S[0], 4), 4, None, "sizedsync"), "min_sized": (lambda S: A.min(S[0]), 1, None, "sized"),
+    "max_sizedsync": (lambda S: A.max(S[0]), 1, None, "sizedsync"), "sum_sized": (lambda S: A.sum(A.map(lambda x: 1, S[0])), 0, None, "sized"),
+    "reduce_sized": (lambda S: A.reduce(_last, S[0]), 1, None, "sized"), "all_sizedsync": (lambda S: A.all(S[0]), 0, None, "sizedsync"),
 }
 TEE_PATTERNS = ["tee-closed-while-a-child-lags", "tee-closed-source-close-fails", "lockstep", "lead5", "lag-then-catch-up", "close-started-child", "close-unstarted-child",
                 "child-killed-by-athrow", "child-killed-by-source-error"]
